@@ -98,7 +98,8 @@ func c17RefServer(s string) c17ServerRef {
 		case !addr.Is6():
 			return c17ServerRef{v: c17Reject, why: "bracketed-non-ipv6"}
 		case addr.Zone() != "":
-			unj = "ipv6-zone"
+			// the specification's IPv6address is 2*45( HEXDIG / ":" / "." ): a "%zone" is outside it
+			return c17ServerRef{v: c17Reject, why: "ipv6-zone"}
 		}
 	} else {
 		if strings.Count(s, ":") > 1 {
@@ -608,7 +609,9 @@ func c17GenServerNeg(t *rapid.T) (string, string) {
 	case "bracketed-v4":
 		return "[" + c17GenIPv4(t) + "]" + c17GenPort(t), edit
 	case "bracketed-garbage":
-		return "[" + rapid.SampledFrom([]string{"", ":", "g::1", "1:2:3:4:5:6:7:8:9", "::1::", "12345::1", "example.com", ":::", "1:2:3:4:5:6:7", "::1 ", "[::1]"}).Draw(t, "g") + "]" + c17GenPort(t), edit
+		return "[" + rapid.SampledFrom([]string{"", ":", "g::1", "1:2:3:4:5:6:7:8:9", "::1::", "12345::1", "example.com", ":::", "1:2:3:4:5:6:7", "::1 ", "[::1]",
+			// zoned (scoped) addresses are not server names
+			"fe80::1%eth0", "::1%1", "fe80::1%25eth0", "::1%a b", "::1%/../x", "::%"}).Draw(t, "g") + "]" + c17GenPort(t), edit
 	case "after-bracket-garbage":
 		return "[" + c17GenIPv6(t) + "]" + rapid.SampledFrom([]string{"x", "80", "]", ".", "[", " :80"}).Draw(t, "g"), edit
 	case "bad-host-char":
@@ -932,6 +935,29 @@ func c17CheckB64Value(ctx *vfCtx, raw []byte) {
 		}
 		if jerr != nil || !bytes.Equal(j, raw) {
 			ctx.Fail("C17/base64/json-decode-"+in.name, "json.Unmarshal(%q) = %x, %v; expected %x", `"`+in.text+`"`, []byte(j), jerr, raw)
+		}
+	}
+	// a destination that already holds a value (Scan / UnmarshalJSON loops decode into one variable):
+	// the result is the new value, and a copy of the previous one kept by the caller is untouched
+	for _, prevLen := range []int{len(raw) + 7, len(raw), len(raw) + 1, 64} {
+		prev := bytes.Repeat([]byte{0xA5}, prevLen)
+		var dst Base64Bytes
+		var e1, e2 error
+		var kept Base64Bytes
+		if vfCatch(ctx, "C17/base64", func() {
+			e1 = dst.Decode(c17RefEncode(prev, c17StdAlphabet))
+			kept = dst
+			e2 = dst.Decode(std)
+		}) {
+			return
+		}
+		if e1 != nil || e2 != nil || !bytes.Equal(dst, raw) {
+			ctx.Fail("C17/base64/decode-into-used-destination", "Decode(%q) into a destination holding %d bytes = %x (%v, %v), expected %x", std, prevLen, []byte(dst), e1, e2, raw)
+			break
+		}
+		if !bytes.Equal(kept, prev) {
+			ctx.Fail("C17/base64/decode-overwrites-previous-value", "after decoding %q into the same variable, the slice obtained from the previous decode changed from %x to %x", std, prev, []byte(kept))
+			break
 		}
 	}
 	var enc string
